@@ -2,7 +2,7 @@
   CWT claims sets: decode results are fixed points of emit-then-decode (at `Value` level).
 -/
 import CosetProofs.Roundtrip.HeaderFixed
-import CosetProofs.Props.C18
+import CosetProofs.ClaimsSpec
 namespace Coset
 open Coset.Props.C18
 
